@@ -83,8 +83,8 @@ CubeLaws ==
   /\ Dot(Cross(A[1], A[2]), A[3]) = Det(A)
   /\ Dot(Cross(A[1], A[2]), A[1]) = 0
   /\ DeleteRowAndColumn(Transpose(A), 1, 2) = Transpose(DeleteRowAndColumn(A, 2, 1))
-BitStringLaws ==
-  \A n \in 1..4 :
+BitStringLaws ==       \* (ph mentioned only to make this a state-level invariant for TLC)
+  ph \in {0, 1} /\ \A n \in 1..4 :
     /\ Len(BitStrings(n)) = Pow2(n)
     /\ Cardinality({BitStrings(n)[k] : k \in 1..Pow2(n)}) = Pow2(n)
     /\ \A k \in 1..Pow2(n) : \A i \in 1..n : BitStrings(n)[k][i] \in {0, 1}
